@@ -125,7 +125,7 @@ def _script(cwd, dbpath, calls):
         else:
             s.raw("acc a " + s.text(txt))
             s.raw("runacc a")
-        s.raw("snap a se")
+        s.raw("snap a sec")      # the component list is read after every call as well (a cached list must be refreshed by every later call that changes it)
     s.raw("tag final")
     s.raw("snap a c")
     s.run("a", DUMP_ALL)
